@@ -55,7 +55,7 @@ impl CfgSpec {
             .iter()
             .map(|m| {
                 ScannerMode::new(
-                    &m.name,
+                    &crate::ttmap::conc_name(&m.name),
                     m.pats.iter().map(|p| {
                         let q = Pattern::new(p.re.print_top(syms), crate::ttmap::conc(p.tt));
                         match &p.la {
@@ -75,7 +75,7 @@ impl CfgSpec {
         json!({
             "simple": self.simple,
             "modes": self.modes.iter().map(|m| json!({
-                "name": m.name,
+                "name": crate::ttmap::conc_name(&m.name),
                 "patterns": m.pats.iter().map(|p| json!({
                     "pattern": p.re.print_top(syms),
                     "token_type": crate::ttmap::conc(p.tt),
